@@ -130,5 +130,12 @@ def add_fun_facts(W):
     for (u, r) in [a for a in run.uapps.get("asin", [])]:
         run.side.append(z3.Implies(z3.And(u >= 0, u <= 1), z3.And(r >= u, r <= pi / 2 * u)))
         run.side.append(z3.Implies(u == 0, r == 0))
+    for (im, re, r) in run.uapps.get("atan2", []):
+        # range and quadrant of the principal value
+        run.side.append(z3.And(r > -pi, r <= pi))
+        run.side.append(z3.Implies(im > 0, r > 0)); run.side.append(z3.Implies(im < 0, r < 0))
+        run.side.append(z3.Implies(z3.And(re < 0, im > 0), r > pi / 2)); run.side.append(z3.Implies(z3.And(re < 0, im < 0), r < -pi / 2))
+        run.side.append(z3.Implies(re > 0, z3.And(r > -pi / 2, r < pi / 2)))
+        run.side.append(z3.Implies(z3.And(im == 0, re > 0), r == 0)); run.side.append(z3.Implies(z3.And(im == 0, re < 0), r == pi))
     for (u, r) in run.uapps.get("log10", []):
         run.side.append(z3.Implies(u == 1, r == 0))
